@@ -104,6 +104,10 @@ pub fn scenario_cut(ctx: &mut Ctx) -> ScResult {
     for c in 0..m.len() {
         let p = &m[..c];
         let r = g("C17", "Message::from_bytes", || Message::from_bytes(p).map(|_| ()))?;
+        let r_try = g("C17", "Message::try_from", || Message::try_from(p).map(|_| ()))?;
+        if format!("{r:?}") != format!("{r_try:?}") {
+            return Err(Violation::new("C17", "prefix_reported_truncated", "Message::try_from", format!("prefix of {c} bytes: Message::from_bytes answers {r:?}, Message::try_from answers {r_try:?}")));
+        }
         let want_expected = if c < 20 { 20 } else { m.len() };
         match r {
             Err(StunParseError::Truncated { expected, actual }) if expected == want_expected && actual == c => {}
@@ -286,6 +290,13 @@ fn crc_judge(ctx: &mut Ctx, orig: &[u8], x: &[u8], what: &str) -> ScResult {
         return Ok(());
     }
     let lib = g("C09", "Message::from_bytes", || Message::from_bytes(x).map(|_| ()))?;
+    // the TryFrom<&[u8]> entry point is the same receiver
+    let via_try = g("C09", "Message::try_from", || Message::try_from(x).is_ok())?;
+    if via_try != lib.is_ok() {
+        let v = Violation::new("C09", "corruption_rejected", "Message::try_from", format!("corrupted buffer ({what}): Message::from_bytes {} it but Message::try_from {} it", if lib.is_ok() { "accepts" } else { "rejects" }, if via_try { "accepts" } else { "rejects" }));
+        ev!(ctx, "  !! {} orig={} mutant={}", v.message, hex(orig), hex(x));
+        return Err(v);
+    }
     let rf = refcodec::decode(x);
     ctx.st.cases += 1;
     // (iii) direct clause: a tolerant walk of the *whole* buffer still ends in a FINGERPRINT
@@ -647,6 +658,15 @@ pub fn scenario_tamper(ctx: &mut Ctx) -> ScResult {
             Err(_) => Err(true),
             Ok(msg) => msg.validate_integrity(&lc).map_err(|_| false),
         })?;
+        // the same through the TryFrom<&[u8]> entry point
+        let r2 = g("C04", "Message::validate_integrity", || match Message::try_from(x) {
+            Err(_) => Err(true),
+            Ok(msg) => msg.validate_integrity(&lc).map_err(|_| false),
+        })?;
+        if r2.is_ok() != r.is_ok() {
+            let v = Violation::new("C04", "tamper_detected", "Message::try_from", format!("{what} at byte {pos}: verdict through Message::from_bytes is {r:?}, through Message::try_from {r2:?}"));
+            return Err(v);
+        }
         ctx.st.cases += 1;
         match r {
             Err(true) => ctx.st.inc("out.tamper_rejected_by_parser"),
@@ -739,11 +759,44 @@ pub fn scenario_tamper(ctx: &mut Ctx) -> ScResult {
         ctx.st.cases += 1;
         if let Ok(a) = r {
             let Verdict::Accept(v2) = refcodec::decode(&x) else { unreachable!() };
-            if !refcodec::integrity_status(&x, &v2, &rc).iter().any(|s| s.1 == alg_type(a) && s.2) {
+            let st = refcodec::integrity_status(&x, &v2, &rc);
+            if !st.iter().any(|s| s.1 == alg_type(a) && s.2) {
                 let v = Violation::new("C04", "reported_algorithm_present_and_correct", "mixed_pair", format!("pair with one wrong MAC: validation reported {a:?}, whose attribute is the wrong one"));
                 ev!(ctx, "  !! {}", v.message);
                 return Err(v);
             }
+            // the *last* exposed integrity attribute covers everything before it, the other MAC
+            // included: a wrong value there is byte for byte what tampering with a correctly sealed
+            // message produces, so validation must fail (a wrong *earlier* MAC under a correct later
+            // one can only come from a peer that built it that way: either verdict)
+            if let Some(last) = st.iter().filter(|s| v2.exposed.contains(&s.0)).last() {
+                if !last.2 {
+                    let v = Violation::new("C04", "tamper_detected", "last_exposed_integrity_attribute_wrong", format!("the last exposed integrity attribute ({}) does not match the message, yet validation answered Ok({a:?})", if last.1 == MI { "MESSAGE-INTEGRITY" } else { "MESSAGE-INTEGRITY-SHA256" }));
+                    ev!(ctx, "  !! {} {}", v.message, hex(&x));
+                    return Err(v);
+                }
+            }
+        }
+    }
+    // (g) a SHA-256 attribute of a length RFC 8489 does not allow (shorter than 16, longer than 32 or
+    // not a multiple of 4) never validates, even when it carries the right HMAC prefix
+    {
+        let rc = creds.reference();
+        let mut fm = RefMsg::new(ctx.ch.below(4) as u8, 1, gen_tid(ctx.ch));
+        fm.items.push(RefItem::Attr { ty: 0x8022, value: b"ab".to_vec(), pad: 0 });
+        let len = *ctx.ch.pick(&[0usize, 1, 4, 8, 12, 15, 17, 18, 19, 22, 30, 31, 33, 36, 48, 64]);
+        fm.items.push(RefItem::Mac256 { creds: rc.clone(), len, flip: None });
+        if ctx.ch.coin() {
+            fm.items.push(RefItem::Fp { flip: None });
+        }
+        let x = fm.encode();
+        let r = g("C04", "Message::validate_integrity", || Message::from_bytes(&x).map_err(|e| format!("{e:?}")).and_then(|m| m.validate_integrity(&lc).map_err(|e| format!("{e:?}"))))?;
+        ctx.st.cases += 1;
+        ctx.st.inc("fault.irregular_truncated_mac");
+        if let Ok(a) = r {
+            let v = Violation::new("C04", "truncation_rule", "irregular_sha256_length", format!("a MESSAGE-INTEGRITY-SHA256 of {len} bytes (not 16..=32 in steps of 4) carrying the HMAC prefix validates (Ok({a:?}))"));
+            ev!(ctx, "  !! {} {}", v.message, hex(&x));
+            return Err(v);
         }
     }
     ctx.st.cases_nontrivial = ctx.st.cases;
@@ -785,7 +838,13 @@ fn gen_tail(ch: &mut Choices, creds: &Creds, other: &Creds) -> Vec<RefItem> {
         let flip = if ch.rare(1, 5) { Some((ch.below(16) as usize, 1u8 << ch.below(8))) } else { None };
         match k {
             0 => v.push(RefItem::Mac1 { creds: c, flip }),
-            1 => v.push(RefItem::Mac256 { creds: c, len: *ch.pick(&[32usize, 16, 20, 24, 28]), flip }),
+            1 => {
+                // one time in eight the SHA-256 attribute has an irregular length (the parser looks at
+                // types only and accepts it; it is an integrity attribute for the exposure rule all the
+                // same, and it never validates)
+                let len = if ch.rare(1, 8) { *ch.pick(&[0usize, 4, 8, 12, 15, 17, 18, 22, 30, 33, 36, 64]) } else { *ch.pick(&[32usize, 16, 20, 24, 28]) };
+                v.push(RefItem::Mac256 { creds: c, len, flip })
+            }
             _ => v.push(RefItem::Fp { flip: None }),
         }
     }
